@@ -121,6 +121,9 @@ func extractFromSlice(curValue any, indexStr string, curSegment string, iter Ite
 }
 
 func calcIndex(indexStr string, segment string, length int, iter Iterator) (int, error) {
+	if length == 0 {
+		return 0, fmt.Errorf("cant take element `%s` of an empty list, segment %s", indexStr, segment)
+	}
 	index, err := strconv.Atoi(indexStr)
 	if err != nil && indexStr != "next" && indexStr != "rand" && indexStr != "last" {
 		return 0, fmt.Errorf("index should be integer or one of [next, rand, last], but got `%s`", indexStr)
